@@ -173,6 +173,11 @@ def flush (H : Hooks) (ord : Nat → List Nat → List Nat) (bfuel : Nat) (s : S
   parameter: relationships are not part of this model) are appended unless present.  Then `obj._save_()` writes `saveList`
   (the new objects it refers to, recursively, then obj itself — a parameter for the same reason), then the after-hooks run. -/
 
+/-- `if val is not None and val._status_ == 'created' and val not in objects: objects.append(val)`, attribute by attribute -/
+def appendNew (s : State) (l : List Nat) : List Nat → List Nat
+  | [] => l
+  | p :: ps => if s.kindAt p = some .insert && !(l.contains p) then appendNew s (l ++ [p]) ps else appendNew s l ps
+
 def entityBeforeLoop (H : Hooks) (princ : State → Nat → List Nat) : Nat → Nat → List Nat → State → Except Err (State × List Nat)
   | 0, _, _, _ => .error .outOfFuel
   | fuel + 1, i, l, s =>
@@ -185,8 +190,8 @@ def entityBeforeLoop (H : Hooks) (princ : State → Nat → List Nat) : Nat → 
         let s1 := { s with trace := s.trace ++ [.before k o] }
         match runOps (H.before k s1 o) s1 with
         | .ok s2 =>
-          let new := (princ s2 o).filter (fun p => !(l.contains p))
-          entityBeforeLoop H princ fuel (i + 1) (l ++ new.eraseDups) s2
+          -- marked_to_delete: `else: continue` (no principal objects are collected)
+          entityBeforeLoop H princ fuel (i + 1) (if k == .delete then l else appendNew s2 l (princ s2 o)) s2
         | .error e => .error e
 
 def clearSlots (q : List (Option Nat)) (l : List Nat) : List (Option Nat) :=
